@@ -6,7 +6,7 @@ from autofit.mapper.prior.tuple_prior import TuplePrior
 from autofit.mapper.prior_model.abstract import AbstractPriorModel
 from autofit.mapper.prior_model.collection import Collection
 from .analysis import Analysis
-from .indexed import IndexCollectionAnalysis
+from .indexed import IndexCollectionAnalysis, IndexedAnalysis
 from ..paths.abstract import AbstractPaths
 
 
@@ -60,10 +60,18 @@ class FreeParameterAnalysis(IndexCollectionAnalysis):
         A new model with all the same priors except for those associated
         with free parameters.
         """
+        from .model_analysis import ModelAnalysis
+
+        def model_of(analysis):
+            # an analysis combined via `with_model` keeps its own model
+            if isinstance(analysis, IndexedAnalysis):
+                analysis = analysis.analysis
+            return analysis.model if isinstance(analysis, ModelAnalysis) else model
+
         return Collection(
             [
                 analysis.modify_model(
-                    model.mapper_from_partial_prior_arguments(
+                    model_of(analysis).mapper_from_partial_prior_arguments(
                         {
                             free_parameter: free_parameter.new()
                             for free_parameter in self.free_parameters
